@@ -675,6 +675,11 @@ def run_case(prop, name, h, timeout_ms=30000, max_paths=400, allow_exceptions=()
                 _try_candidates(res, h, m.inputs, hyps, z3.Not(term), obname, key, timeout_ms, prop, ints, getattr(m, 'pos_terms', ()))
             elif r == 'unknown':
                 res['inconclusive'].append(f'{obname}: solver unknown ({mdl})')
+    if not res['violations'] and any('unexpected-exception' in str(x) and 'did not reproduce' in str(x) for x in res['inconclusive']):
+        # an exception that the symbolic run met but no concrete input reproduces is an artefact of the engine (a numpy
+        # call that cannot take symbols): the verdict stays inconclusive, but the concrete probe may still find a
+        # reproduced failure of the changed code
+        rescue(res, prop, h)
     if res['obligations'] and not res['vacuity']:
         res['inconclusive'].append('no vacuity witness: no obligation-bearing path has a satisfiable '
                                    'path condition')
